@@ -502,7 +502,7 @@ func arbitrary(c *explore.Ctx) {
 			checkValid(c, doc, "short")
 		}
 		// the same bytes as a window of a larger buffer: what the spare capacity holds is not part of the document
-		if pv == nil {
+		if pv == nil && len(doc) <= 5 { // windows for the strings of the quick tier's length
 			first, ferr, _, _ := run(json.NewTokenizer(doc), doc, 0)
 			for _, fill := range []byte{'"', '\\', '0', ']', 'e'} {
 				big := bytes.Repeat([]byte{fill}, len(doc)+16)
